@@ -32,6 +32,9 @@ inductive Op
   | pumpRW (rx : Rx) (o : Outcome)
   /-- `IOWorker.shutdown(send=True)` (= `OFConnection.close`): "finish writing, then shut the socket down for writing" -/
   | shutdown
+  /-- `RecocoIOWorker.close()` called by the application (the owner of the worker): `if self.closed: return`, then closed,
+      the close handler runs, the loop is asked to drop the worker at the start of its next pass -/
+  | close
   deriving Repr
 
 structure St where
@@ -98,6 +101,7 @@ def doRecv (s : St) : Rx → St
 
 def step0 (s : St) : Op → St
   | .shutdown => { s with shutReq := true }
+  | .close => s.fail
   | .send d => { s with sendBuf := s.sendBuf ++ d, queued := s.queued ++ d }     -- send() never looks at `closed`
   | .pump o => doSend s o
   | .pumpRW rx o =>
